@@ -3,6 +3,7 @@
   Property theorems only; every `theorem` here is a proof obligation of the check.
 -/
 import NextestModel.Model.Filter
+import NextestModel.Gen.Tables
 namespace NextestModel.C04
 open NextestModel
 
@@ -272,6 +273,16 @@ example : Patterns.WF ((Patterns.new []).addSkipExact [102, 111, 111]) := trivia
 /-- the documented `-- --exact --skip foo` form: `foo` itself is rejected, `foobar` is not -/
 example : ((Patterns.new []).addSkipExact [102, 111, 111]).resolve.nameMatch [102, 111, 111] = .mismatch ∧
           ((Patterns.new []).addSkipExact [102, 111, 111]).resolve.nameMatch [102, 111, 111, 98] = .matchWith := by
+  decide
+
+/-! ## Tie to the source: `MismatchReason` -/
+
+def reasonName : Reason → String
+  | .ignored => "Ignored" | .string => "String" | .expression => "Expression"
+  | .partition => "Partition" | .defaultFilter => "DefaultFilter"
+
+theorem mismatch_reasons_match_source :
+    Gen.mismatchReasonOrder = [Reason.ignored, .string, .expression, .partition, .defaultFilter].map reasonName := by
   decide
 
 end NextestModel.C04
